@@ -63,6 +63,8 @@ pub struct Net {
     dir: PathBuf,
     nipc: usize,
     v6: bool,
+    /// descriptors hoarded by `fdhoard`
+    hoard: Vec<std::fs::File>,
 }
 
 fn greeting() -> Vec<u8> {
@@ -165,7 +167,7 @@ impl Net {
         let dir = dir.join(format!("zmqnet-{}", std::process::id()));
         let _ = std::fs::create_dir_all(&dir);
         let v6 = std::net::TcpListener::bind("[::1]:0").is_ok();
-        Net { rt, socks: HashMap::new(), eps: vec![], raws: HashMap::new(), monitors: HashMap::new(), dir, nipc: 0, v6 }
+        Net { rt, socks: HashMap::new(), eps: vec![], raws: HashMap::new(), monitors: HashMap::new(), dir, nipc: 0, v6, hoard: vec![] }
     }
 
     fn ep_name(&mut self, e: &Endpoint) -> String {
@@ -248,6 +250,7 @@ impl Net {
         let num = |i: usize| -> Option<usize> { w.get(i).and_then(|s| s.parse().ok()) };
         match w[0] {
             "case" => {
+                self.hoard.clear();
                 self.raws.clear();
                 self.monitors.clear();
                 let socks: Vec<Sock> = self.socks.drain().map(|(_, s)| s).collect();
@@ -747,6 +750,28 @@ impl Net {
                 };
                 drop(fut);
                 r
+            }
+            // fdhoard: open /dev/null until the process has no file descriptor left (EMFILE); fdrelease <n|all>: give
+            // some back. Between `fdhoard; fdrelease 1; rawconn ..` and `fdrelease all` the library's accept() fails
+            // with EMFILE (the one free descriptor went to the raw client)
+            "fdhoard" => {
+                loop {
+                    match std::fs::File::open("/dev/null") {
+                        Ok(f) => self.hoard.push(f),
+                        Err(_) => break,
+                    }
+                    if self.hoard.len() > 2_000_000 {
+                        break;
+                    }
+                }
+                "ok".into()
+            }
+            "fdrelease" => {
+                let n = if w.get(1) == Some(&"all") { self.hoard.len() } else { num(1).unwrap_or(1).min(self.hoard.len()) };
+                for _ in 0..n {
+                    self.hoard.pop();
+                }
+                "ok".into()
             }
             // pause <ms>
             "pause" => {
